@@ -115,7 +115,10 @@ class Interface(ModelElement):
         # check uniqueness against the model, not this handle's list: another handle of the
         # same interface may have added sub-interfaces since this one was created
         model_ids = self.topo.graph_model.get_all_child_connection_points(interface_id=self.node_id)
-        all_names = [self.topo.graph_model.get_node_properties(node_id=i)[1][ABCPropertyGraph.PROP_NAME]
+        # only the sub-interfaces this handle has not seen yet need a look-up in the model
+        known = {i.node_id: i.name for i in self._interfaces}
+        all_names = [known[i] if i in known else
+                     self.topo.graph_model.get_node_properties(node_id=i)[1][ABCPropertyGraph.PROP_NAME]
                      for i in model_ids]
         if name in all_names:
             raise TopologyException(f'Sub Interface {name} is not unique within the interface')
